@@ -315,7 +315,7 @@ func limitStr(l int) string {
 func c19Cases(c *Ctx) []c19Case {
 	maxLen, nestLen := 8, 4
 	if !c.Quick() {
-		maxLen, nestLen = 12, 6
+		maxLen, nestLen = 14, 8
 	}
 	var out []c19Case
 	for n := 0; n <= maxLen; n++ {
